@@ -16,7 +16,7 @@ THEOREMS = ['cleanup_freq', 'cleanup_conservative', 'cleanup_greedy', 'cleanup_a
             'history_independent', 'copies_independent', 'pc_error_iff', 'hstep_preserves',
             'heap_reachable_Inv', 'heap_served_fresh']
 GEN_SITES = ['cache:cleanup', 'cache:init', 'cache:aliases', 'cache:intermediates']
-COMPONENTS = ['cache_machine']
+COMPONENTS = ['cache_machine', 'cache_machine_motifs']
 RULES = ['histories: seeded random sequences of public calls (getters, explicit cachers, every '
          'clean-up mode, derivative, infidelity, decay amplitudes, cumulant function, copy / '
          'deepcopy and calls on the copies) over three grids (two of equal length, one of '
@@ -59,6 +59,8 @@ class World:
             self.descs = descs
             self.w = {int(k): np.asarray(v, dtype=float) for k, v in grids.items()}
         self.traceless = bool(gens.make_basis(self.descs[0]['basis'], d).istraceless)
+        # some noise operator has a component along the identity (its trace is nonzero)
+        self.idc = bool(any(abs(np.trace(o)) > 1e-12 for dsc in self.descs for o in dsc['n_opers']))
         self.S = {g: 1/(1 + w) for g, w in self.w.items()}
         self.ref = {}
         for g, w in self.w.items():
@@ -144,25 +146,33 @@ class World:
         return ' '.join(f)
 
 
-def gen_history(rng, world, length):
-    """list of protocol tokens"""
+def gen_history(rng, world, length, g0=None):
+    """list of protocol tokens.  Grids are sticky (half of the requests go to the grid last used on
+    that object, initially `g0`) so that requests *at the cached grid* after clean-ups, copies and
+    explicit cachers are as frequent as requests at a new grid; pulse-correlation worlds draw
+    pulse-correlation requests more often."""
     ops = []
     n_obj = 1
     tl = '1' if world.traceless else '0'
+    last = {0: g0}
+    extra = ['infidelity', 'decayAmps', 'getPcFF', 'getPcCM', 'cleanup', 'cleanup'] if world.pc else []
     for _ in range(length):
         i = int(rng.integers(0, n_obj))
         g = int(rng.integers(1, 4))
+        if last.get(i) and rng.random() < 0.5:
+            g = last[i]
         b = lambda: str(int(rng.integers(0, 2)))  # noqa
         w = str(rng.choice(['f', 'g']))
         kind = rng.choice(['getCM', 'getFF', 'getFF', 'getPhases', 'deriv', 'cleanup', 'cacheCM',
                            'cacheFFvalue', 'cacheFFfromCM', 'cacheFFcompute', 'cacheCMcompute',
                            'cachePhases', 'infidelity', 'decayAmps', 'cumulant', 'copy', 'deepcopy',
                            'getPcFF', 'getPcCM', 'diagonalize', 'totPropL', 'eigAccess',
-                           'totPropAccess'])
+                           'totPropAccess'] + extra)
         if kind in ('copy', 'deepcopy'):
             if n_obj >= 3:
                 continue
             ops.append(f'{kind}@{i}')
+            last[n_obj] = last.get(i)
             n_obj += 1
             continue
         if kind == 'getCM':
@@ -188,7 +198,7 @@ def gen_history(rng, world, length):
         elif kind == 'cachePhases':
             t = f'cachePhases:{g}'
         elif kind == 'infidelity':
-            t = f'infidelity:{g}:{tl}:{b() if world.pc else "0"}'
+            t = f'infidelity:{g}:{tl}:{b() if world.pc else "0"}:{"1" if world.idc else "0"}'
         elif kind == 'decayAmps':
             t = f'decayAmps:{g}:{b() if world.pc else "0"}:{b()}'
         elif kind == 'cumulant':
@@ -197,6 +207,8 @@ def gen_history(rng, world, length):
             t = f'getPcFF:{w}'
         else:
             t = kind
+        if f':{g}' in t:
+            last[i] = g
         ops.append(f'{i}@{t}')
     return ops
 
@@ -345,9 +357,93 @@ def correspondence(ctx):
     """model vs implementation on seeded histories; also the implementation-level property check
     (every returned value equals the fresh one)"""
     rng = ctx.rng('hist')
-    n_hist = 40 if ctx.tier == 'quick' else 1500
-    max_len = 10 if ctx.tier == 'quick' else 24
+    n_hist = 200 if ctx.tier == 'quick' else 1500
+    max_len = 12 if ctx.tier == 'quick' else 24
     run_batch(ctx, rng, n_hist, max_len)
+    if ctx.tier == 'quick':
+        run_motifs(ctx, ctx.rng('motif'), 2, 400)
+    else:
+        run_motifs(ctx, ctx.rng('motif'), 8, None)
+
+
+def motif_histories(world, pcg):
+    """systematic short histories: (initial state) x (every state-changing call) x (every request, at
+    the cached grid and at another one).  Random histories rarely place a specific request right
+    after a specific clean-up / explicit cacher at the *same* grid; this matrix always does."""
+    tl = '1' if world.traceless else '0'
+    idc = '1' if world.idc else '0'
+    pcs = ['0', '1'] if world.pc else ['0']
+    g0 = pcg or 1
+    g1 = 2 if g0 != 2 else 3
+    inits = [[], [f'0@getFF:{g0}:f:1:1'], [f'0@cacheCMcompute:{g0}:0'], [f'0@getFF:{g0}:g:0:0']]
+    if world.pc:
+        inits.append([f'0@cacheCM:{g0}:1'])
+    muts = [f'cleanup:{m}' for m in ('conservative', 'greedy', 'freq', 'all')]
+    muts += ['diagonalize', 'totPropL']
+    for g in (g0, g1):
+        muts += [f'cacheCM:{g}:{pc}' for pc in pcs]
+        muts += [f'cacheFFvalue:{g}:f:0', f'cacheFFvalue:{g}:g:1', f'cachePhases:{g}',
+                 f'cacheCMcompute:{g}:1', f'cacheFFcompute:{g}:f:1:0']
+        muts += [f'cacheFFfromCM:{g}:f:{pc}' for pc in pcs]
+    muts += [f'getCM:{g1}:0', f'getFF:{g1}:f:1:1']
+    reqs = []
+    for g in (g0, g1):
+        reqs += [f'getCM:{g}:0', f'getCM:{g}:1', f'getFF:{g}:f:0:0', f'getFF:{g}:g:0:1',
+                 f'getFF:{g}:f:1:0', f'getPhases:{g}', f'deriv:{g}', f'cumulant:{g}:0',
+                 f'cumulant:{g}:1', f'decayAmps:{g}:0:1']
+        reqs += [f'infidelity:{g}:{tl}:{pc}:{idc}' for pc in pcs]
+        if world.pc:
+            reqs.append(f'decayAmps:{g}:1:0')
+    if world.pc:
+        reqs += ['getPcFF:f', 'getPcFF:g', 'getPcCM']
+    out = []
+    for ini in inits:
+        for m in muts:
+            for r in reqs:
+                out.append(ini + [f'0@{m}', f'0@{r}'])
+    return out
+
+
+def run_motifs(ctx, rng, n_worlds, per_world):
+    """the motif matrix on `n_worlds` worlds (pulse-correlation worlds with a traceless basis and
+    noise operators with a trace first: that is where most special cases of the code meet)"""
+    lines, impls, metas = [], [], []
+    want = [(True, True, True), (False, False, True), (True, False, False), (False, True, False),
+            (True, True, False), (True, False, True), (False, True, True), (False, False, False)]
+    for k in range(n_worlds):
+        pc, tl, idc = want[k % len(want)]
+        for _ in range(200):
+            world = World(rng, pc=pc)
+            if world.traceless == tl and world.idc == idc:
+                break
+        pcg = int(rng.integers(1, 4)) if pc else None
+        hs = motif_histories(world, pcg)
+        if per_world and len(hs) > per_world:
+            hs = [hs[j] for j in sorted(rng.choice(len(hs), per_world, replace=False))]
+        for ops in hs:
+            init, impl, probs = run_history(ctx, world, ops, pcg)
+            lines.append('cache ' + init.replace(' ', ',') + ' ' + ';'.join(ops))
+            impls.append(impl)
+            metas.append((world, ops, pcg))
+            ctx.count(('motif', k, tuple(ops)), nontrivial=True)
+            for pr in probs:
+                ctx.fail('history_vs_fresh', {'descs': world.descs, 'grids': world.w, 'ops': ops,
+                                              'pc': world.pc, 'pc_init_grid': pcg},
+                         pr, 'value of a freshly constructed equal pulse', {},
+                         f'after history {ops}: {pr}')
+    outs = driver(lines) if lines else []
+    bad = []
+    for (world, ops, pcg), impl, out in zip(metas, impls, outs):
+        model = out[3:].split(';') if out.startswith('ok ') else [out]
+        if model != impl:
+            k = next((j for j, (a, b) in enumerate(zip(model, impl)) if a != b), len(impl))
+            bad.append({'ops': ops[:k + 1], 'model': model[k] if k < len(model) else None,
+                        'impl': impl[k] if k < len(impl) else None, 'pc_init_grid': pcg,
+                        'traceless': world.traceless, 'idc': world.idc})
+    ctx.oblige('correspondence:cache_machine_motifs', 'correspondence', not bad,
+               f'{len(bad)} of {len(lines)} motif histories disagree; first: {bad[:1]}')
+    ctx.stat('motif_histories', len(lines))
+    return bad
 
 
 def run_batch(ctx, rng, n_hist, max_len):
@@ -356,10 +452,10 @@ def run_batch(ctx, rng, n_hist, max_len):
     for h in range(n_hist):
         if h % 8 == 0:
             world = World(rng, pc=bool((h // 8) % 2))
-        ops = gen_history(rng, world, int(rng.integers(3, max_len + 1)))
+        pcg = int(rng.integers(1, 4)) if (world.pc and rng.random() < 0.7) else None
+        ops = gen_history(rng, world, int(rng.integers(3, max_len + 1)), pcg)
         if not ops:
             continue
-        pcg = int(rng.integers(1, 4)) if (world.pc and rng.random() < 0.7) else None
         init, impl, probs = run_history(ctx, world, ops, pcg)
         lines.append('cache ' + init.replace(' ', ',') + ' ' + ';'.join(ops))
         impls.append(impl)
@@ -394,8 +490,8 @@ def search(ctx, deep=False):
     if deep:
         run_batch(ctx, ctx.rng('deep'), 300 if ctx.tier == 'quick' else 3000, 30)
     elif ctx.evaluations == 0:
-        run_batch(ctx, ctx.rng('hist'), 40 if ctx.tier == 'quick' else 1500,
-                  10 if ctx.tier == 'quick' else 24)
+        run_batch(ctx, ctx.rng('hist'), 200 if ctx.tier == 'quick' else 1500,
+                  12 if ctx.tier == 'quick' else 24)
 
 
 def replay(ctx, check, case):
